@@ -40,7 +40,7 @@ def _c20():
 
     def add(name, oor=False, thorough_only=False):
         shape = name.rsplit("_", 1)[-1]
-        tier = "quick" if (shape in quick_shapes or not shape.startswith("s") or name in ("c20_split_off_in_s31",)) and not thorough_only else "thorough"
+        tier = "quick" if (shape in quick_shapes or not shape.startswith("s") or name in ("c20_split_off_in_s31", "c20_advance_in_s111", "c20_truncate_in_s111", "c20_advance_in_s213")) and not thorough_only else "thorough"
         # in-range: decided under `dev` (debug invariants on: stricter) first, `rel` second;
         # out-of-range: decided under `rel` (what a production build does); in `dev` the
         # crate's own debug invariant panics first, which is an allowed outcome.
@@ -341,7 +341,7 @@ PROPS["C04"] = mux_prop(
     assumptions=[], explanation="The conditions under which the pinned tree deadlocked (threshold above the advertised window) as a solver query over all option values, plus the non-blocking steps progress relies on.")
 
 PROPS["C05"] = mux_prop(
-    "C05", pick("c05_", extra=["c02_w_plain_l0", "c02_w_plain_l1", "c02_w_vec_0_0", "c02_r_rem0_q0_cap1", "c02_r_rem0_q1_cap1", "c10_finish_est", "c10_finish_est_readclosed", "c06_peer_reset_app_view",
+    "C05", pick("c05_", extra=["c02_w_plain_l0", "c02_w_plain_l1", "c02_w_vec_0_0", "c02_r_rem0_q0_cap1", "c02_r_rem0_q1_cap1", "c02_r_uninit_rem0_q1_cap3", "c02_r_uninit_rem2_q0_cap1", "c10_finish_est", "c10_finish_est_readclosed", "c06_peer_reset_app_view",
                                "c10_reset_est", "c10_reset_est_full", "c06_local_drop"]),
     thorough_only={"c02_w_vec_0_0"},
     note="end-of-stream only when the sender is gone and the queue is drained; empty writes; shutdown once; BrokenPipe afterwards",
